@@ -27,6 +27,10 @@ from . import core
 from . import vt as _vt
 
 SEG_NAMES = ['noSegmentation', 'segmentedTransmit', 'segmentedReceive', 'segmentedBoth']
+# the numeric values clause 21 gives BACnetSegmentation, indexed like SEG_NAMES (harness-owned:
+# never read from the library): no-segmentation 3, segmented-transmit 1, segmented-receive 2,
+# segmented-both 0
+SEG_CODES = [3, 1, 2, 0]
 START = 1_000_000_000.0
 
 RAW_OK, RAW_REJECT, RAW_ABORT = 200, 201, 202
@@ -131,7 +135,10 @@ def wire_of(a):
     independent of bacpypes' encoder"""
     t = a["t"]
     d = bytes.fromhex(a.get("hex", ""))
-    g = lambda k: int(a.get(k, 0) or 0)
+    # every field is one octet on the wire: a value outside 0..255 (e.g. an invoke ID 256 a
+    # defective allocator handed out) is reduced modulo 256 here - what the code under test
+    # DECODES is what the model is told; the out-of-range value itself is the oracles' business
+    g = lambda k: int(a.get(k, 0) or 0) & 0xFF
     if t == 0:
         b = [(0 << 4) | (8 if g("seg") else 0) | (4 if g("mor") else 0) | (2 if g("sa") else 0),
              ((g("maxSegs") & 7) << 4) | (g("maxResp") & 15), g("id")]
@@ -563,14 +570,40 @@ class Lock:
         r2 = self._finish({"op": "ev", "e": "timeout", "srv": 1 if srv else 0, "peer": peer, "id": inv})
         return r1, r2
 
+    def iam_octets(self, instance, max_apdu, seg_code, vendor=999):
+        """an I-Am APDU written BY HAND (unconfirmed request, service 0): object identifier
+        (device, instance), unsigned max APDU, enumerated segmentation `seg_code` (the
+        STANDARD's numbers: 0 both, 1 transmit, 2 receive, 3 none), unsigned vendor id"""
+        def unsigned(v):
+            n = max(1, (v.bit_length() + 7) // 8)
+            return bytes([0x20 | n]) + v.to_bytes(n, "big")
+        return (bytes([0x10, 0x00, 0xC4]) + ((8 << 22) | instance).to_bytes(4, "big")
+                + unsigned(max_apdu) + bytes([0x91, seg_code]) + unsigned(vendor))
+
+    def decode_iam(self, octets, addr):
+        """decode I-Am octets with the LIBRARY the way the stack does on reception"""
+        from bacpypes.apdu import APDU, UnconfirmedRequestPDU, IAmRequest
+        from bacpypes.pdu import PDU
+        apdu = APDU()
+        apdu.decode(PDU(octets, source=addr, destination=self.local))
+        x = UnconfirmedRequestPDU()
+        x.decode(apdu)
+        iam = IAmRequest()
+        iam.decode(x)
+        return iam
+
+    def iam_real(self, instance, peer, max_apdu, seg):
+        """an I-Am from device `instance` at address `peer` reaches the application, which
+        does what applications do: deviceInfoCache.iam_device_info(apdu).  The capabilities
+        travel as OCTETS (seg = index into SEG_NAMES, translated by SEG_CODES, a table owned
+        by the harness) so that the library's own enumeration values are part of the test."""
+        iam = self.decode_iam(self.iam_octets(instance, max_apdu, SEG_CODES[seg]), self.addrs[peer])
+        self.cache.iam_device_info(iam)
+        return iam
+
     def _learn_real(self, peer, info):
         """what an application does on an I-Am (+ reading Max_Segments_Accepted)"""
-        from bacpypes.apdu import IAmRequest
-        iam = IAmRequest(iAmDeviceIdentifier=("device", 1000 + peer),
-                         maxAPDULengthAccepted=info["maxApdu"] if info["maxApdu"] is not None else 1024,
-                         segmentationSupported=SEG_NAMES[info["seg"]], vendorID=999)
-        iam.pduSource = self.addrs[peer]
-        self.cache.iam_device_info(iam)
+        self.iam_real(1000 + peer, peer, info["maxApdu"] if info["maxApdu"] is not None else 1024, info["seg"])
         rec = self.cache.get_device_info(self.addrs[peer])
         if rec is None:
             if self.strict_learn:
@@ -587,6 +620,31 @@ class Lock:
             rec.maxApduLengthAccepted = None
         rec.maxSegmentsAccepted = info["maxSegs"]
         rec.maxNpduLength = info["maxNpdu"]
+
+    def view(self, peer):
+        """the record the cache returns for the address of `peer`, as the model's `info`"""
+        rec = self.cache.get_device_info(self.addrs[peer])
+        if rec is None:
+            return None
+        seg = rec.segmentationSupported
+        return {"maxApdu": rec.maxApduLengthAccepted, "seg": SEG_NAMES.index(seg) if seg in SEG_NAMES else -1,
+                "maxSegs": rec.maxSegmentsAccepted, "maxNpdu": rec.maxNpduLength, "id": rec.deviceIdentifier}
+
+    def iam(self, instance, peer, max_apdu, seg, peers=(0, 1, 2, 3)):
+        """an I-Am of ANY device instance from ANY address (cache histories).  The model is
+        told, per address whose visible record changed, what the cache now returns for it
+        (`learn` events).  Returns the list of replies."""
+        before = {q: self.view(q) for q in peers}
+        self.outs = []
+        self.wire = []
+        self.iam_real(instance, peer, max_apdu, seg)
+        out = []
+        for q in peers:
+            v = self.view(q)
+            if v is not None and v != before[q] and v["seg"] >= 0:
+                info = {k: v[k] for k in ("maxApdu", "seg", "maxSegs", "maxNpdu")}
+                out.append(self._finish({"op": "ev", "e": "learn", "peer": q, "info": info}))
+        return out
 
     def learn(self, peer, info):
         self.outs = []
